@@ -317,8 +317,10 @@ std::string runScenario(const Scenario& sc)
          int idx = -1, x = -1;
          Handler ah(out, err, 0);
          auto* a = ah.addArgument("n", DEST_VAR(name), "Name");
-         if (sc.kind == K_REQUIRES) a->addConstraint(pa::requiresArg("i;o,opt"));
-         else a->addConstraint(pa::excludes("i;o,opt"));
+         static const char* const SPECS[4] = { "i;o,opt", "i", "o,opt;i", "opt;x" };
+         const char* spec = SPECS[(sc.nums[0] + sc.nums[1]) % 4];
+         if (sc.kind == K_REQUIRES) a->addConstraint(pa::requiresArg(spec));
+         else a->addConstraint(pa::excludes(spec));
          ah.addArgument("i", DEST_VAR(idx), "Index");
          ah.addArgument("o,opt", DEST_VAR(opt), "Optional");
          ah.addArgument("x", DEST_VAR(x), "Extra");
@@ -335,11 +337,14 @@ std::string runScenario(const Scenario& sc)
          ah.addArgument("i", DEST_VAR(idx), "Index");
          ah.addArgument("r", DEST_VAR(rate), "Rate");
          ah.addArgument("x", DEST_VAR(x), "Extra");
+         // the argument list of the constraint differs between scenarios (state that a static cache would share)
+         static const char* const LISTS[6] = { "n;i;r", "n;i", "i;r", "n;x", "i;r;x", "x;n;r" };
+         const char* list = LISTS[(sc.nums[0] + sc.nums[1]) % 6];
          switch (sc.variant % 3)
          {
-         case 0: ah.addConstraint(pa::all_of("n;i;r")); break;
-         case 1: ah.addConstraint(pa::any_of("n;i;r")); break;
-         default: ah.addConstraint(pa::one_of("n;i;r")); break;
+         case 0: ah.addConstraint(pa::all_of(list)); break;
+         case 1: ah.addConstraint(pa::any_of(list)); break;
+         default: ah.addConstraint(pa::one_of(list)); break;
          }
          ah.evalArguments(ac, av.data());
          dump << "name=" << name << " idx=" << idx << " rate=" << rate << " x=" << x;
